@@ -16,7 +16,8 @@ package quic_test
 // that is what the server is after a Retry or a Version Negotiation). Demands:
 //   - every client datagram <= maximum packet size; every Initial in it decrypts (as above) and
 //     carries only frames allowed in an Initial;
-//   - Initial packet numbers increase by exactly one over the whole dial (never reset);
+//   - Initial packet numbers increase by exactly one over a connection attempt, across a Retry
+//     (never reset); a re-dial after Version Negotiation does not start below InitPacketNumber;
 //   - the packet with number InitPacketNumber+i is encoded in InitPacketNumberLengths[i] bytes
 //     (last entry repeats), unless that length cannot carry the number to a receiver that has
 //     seen nothing (then longer is accepted), exactly as in part flight-vs-spec;
@@ -76,10 +77,10 @@ type c10PeerPkt struct {
 }
 
 type c10PeerEpoch struct {
-	Kind   string // "first", "vn" (version changed), "retry" (same version, new keys)
-	T0     time.Duration
-	Before uint64 // Initial packets sent before this epoch
-	Flight []sim.Event
+	Kind    string // "first", "vn" (version changed), "retry" (same version, new keys)
+	Attempt int    // connection attempt: +1 for every "vn" epoch (UTransport re-dials: a new connection)
+	T0      time.Duration
+	Flight  []sim.Event
 }
 
 // c10PeerObserve reads the client datagrams of one dial. Packets that open with the keys of an
@@ -135,7 +136,14 @@ func c10PeerObserve(c2s []sim.Event) (pkts []c10PeerPkt, epochs []c10PeerEpoch, 
 					}
 				}
 				ks = append(ks, &keyState{keys: ck, version: p.Version, largest: -1})
-				epochs = append(epochs, c10PeerEpoch{Kind: kind, T0: e.T, Before: uint64(len(pkts))})
+				attempt := 0
+				if len(epochs) > 0 {
+					attempt = epochs[len(epochs)-1].Attempt
+				}
+				if kind == "vn" {
+					attempt++
+				}
+				epochs = append(epochs, c10PeerEpoch{Kind: kind, Attempt: attempt, T0: e.T})
 				opened = len(ks) - 1
 			}
 			if int64(p.PN) > ks[opened].largest {
@@ -175,13 +183,29 @@ func c10PeerCheck(s *quic.QUICSpec, c2s []sim.Event, dialErr error) (fail *explo
 	if len(pkts) == 0 {
 		return explore.Failf("no-initial", "the dial sent %d datagrams, none with an Initial packet", len(c2s)), ""
 	}
+	const maxPN = uint64(1)<<62 - 1
 	// the complete check of every flight that opens a connection on the spec
 	var tokens [][]byte
 	for ei, ep := range epochs {
 		if ep.Kind == "retry" {
 			continue
 		}
-		f, tok, _ := c10Check(s, sim.Flight{First: ep.Flight}, ei+1, tokens, ep.Before)
+		// A re-dial continues the packet numbers of the attempt it replaces; where exactly is
+		// not the property's subject (the abandoned connection may still have used a number
+		// for its CONNECTION_CLOSE), so the schedule index is read off the flight itself.
+		var startIdx uint64
+		if ep.Kind == "vn" && ips.InitPacketNumber <= maxPN {
+			for _, p := range pkts {
+				if p.Epoch == ei {
+					if p.Pkt.PN < ips.InitPacketNumber {
+						return explore.Failf("after-version-negotiation:first-pn", "the re-dial after Version Negotiation starts at Initial packet number %d, below InitPacketNumber %d", p.Pkt.PN, ips.InitPacketNumber), ""
+					}
+					startIdx = p.Pkt.PN - ips.InitPacketNumber
+					break
+				}
+			}
+		}
+		f, tok, _ := c10Check(s, sim.Flight{First: ep.Flight}, ei+1, tokens, startIdx)
 		if f != nil {
 			if ep.Kind == "vn" {
 				f.Key = "after-version-negotiation:" + f.Key
@@ -192,14 +216,13 @@ func c10PeerCheck(s *quic.QUICSpec, c2s []sim.Event, dialErr error) (fail *explo
 		tokens = append(tokens, tok)
 	}
 	// numbering and encoding length over the whole dial
-	const maxPN = uint64(1)<<62 - 1
 	for i, p := range pkts {
 		after := ""
 		if p.Epoch > 0 {
 			after = "after-" + epochs[p.Epoch].Kind + ":"
 		}
-		if i > 0 && p.Pkt.PN != pkts[i-1].Pkt.PN+1 {
-			return explore.Failf(after+"pn-increment", "Initial packet numbers %d then %d (client datagrams %d, %d): the increment must be 1 over the whole dial", pkts[i-1].Pkt.PN, p.Pkt.PN, pkts[i-1].Datagram, p.Datagram), ""
+		if i > 0 && epochs[pkts[i-1].Epoch].Attempt == epochs[p.Epoch].Attempt && p.Pkt.PN != pkts[i-1].Pkt.PN+1 {
+			return explore.Failf(after+"pn-increment", "Initial packet numbers %d then %d (client datagrams %d, %d): the increment must be 1 over the whole connection attempt, a Retry included", pkts[i-1].Pkt.PN, p.Pkt.PN, pkts[i-1].Datagram, p.Datagram), ""
 		}
 		if len(p.Pkt.SCID) != ips.SrcConnIDLength {
 			return explore.Failf(after+"scid-length", "Initial packet number %d: source connection ID has %d bytes, spec says %d", p.Pkt.PN, len(p.Pkt.SCID), ips.SrcConnIDLength), ""
